@@ -11,7 +11,8 @@
    `cperm` of the sets Namespace._nested_namespaces, every extension / stem / output directory.
    `same` is the eqkey of the current code: since fix f08a0a1 Namespace.__eq__/__hash__ compare the unstropped
    _namespace_components, so NO input is excluded any more (no ns_fold premise). *)
-From Verif Require Import NamespaceBase NamespaceBuildThm NamespaceTreeThm NamespacePathThm NamespaceThm.
+From Verif Require Import NamespaceBase NamespaceBuildThm NamespaceTreeThm NamespacePathThm NamespaceSortThm NamespaceThm.
+From Coq Require Import Sorted.
 From Verif Require Import Gen_Pin_c11tree Gen_Pin_c11path Gen_C11Scan.
 Open Scope N_scope.
 
@@ -97,6 +98,21 @@ Theorem C11_tree (strop : str -> str) (es : bool) (ext : str) (outdir : path) :
         In p (keys (fst (build strop same es ext outdir perm types))) /\ length k = S (length p) /\ firstn (length p) k = p).
 Proof. exact (tree_shape strop same es ext outdir). Qed.
 Print Assumptions C11_tree.
+
+(* (5') children_enumerated_in_name_order (current code, fix 9b93945): Namespace.get_nested_namespaces -- which every recursive
+   generator and the BFS now iterate -- is sort_keys of the child set: a permutation (so (6), (7) apply with cperm := sort_keys),
+   sorted by the lexicographic order of the unstropped component lists (Python list-of-str comparison), duplicate free, and
+   consists of exactly the nodes whose parent-by-name is this node -- whatever order `perm` the index was linked in. *)
+Theorem C11_children_enumerated_in_name_order (strop : str -> str) (es : bool) (ext : str) (outdir : path) :
+  (forall l, Permutation (sort_keys l) l) /\
+  forall perm, (forall l, Permutation (perm l) l) ->
+  forall (types : list ty) (r : str), NoDup types -> one_root r types -> types <> [] ->
+  forall k n, get (fst (build strop same es ext outdir perm types)) k = Some n ->
+    Sorted key_le (sort_keys (n_children n)) /\ NoDup (sort_keys (n_children n)) /\
+    forall c, In c (sort_keys (n_children n)) <->
+              (In c (keys (fst (build strop same es ext outdir perm types))) /\ parent_of c = Some k).
+Proof. split; [exact sort_keys_perm | exact (children_in_name_order strop es ext outdir)]. Qed.
+Print Assumptions C11_children_enumerated_in_name_order.
 
 (* (6) types_each_once: get_all_types / get_all_datatypes / get_all_namespaces from the root enumerate every type
    exactly once (with its output path) and every namespace exactly once, for every iteration order and every
